@@ -93,6 +93,10 @@ def corpus(v, lvl):
         m.pid.pid_3 = 'I' + e['COMPONENT'] * 3 + 'A' + e['SUBCOMPONENT'] + 'U'
         m.pid.pid_5.value = 'F' + e['COMPONENT'] + 'G'
         m.pid.pid_3.cx_1 = 'II'
+        if 'CX' in libs()[v].DATATYPES_STRUCTS:
+            # a string with the message's own sub-component separator given to a component through the child API
+            m.pid.pid_3.cx_4 = 'NS' + e['SUBCOMPONENT'] + 'U2'
+            m.pid.pid_3.cx_6.value = 'F1' + e['SUBCOMPONENT'] + 'F2'
         m.add_segment('PV1').pv1_2 = 'I'
         return m
     c = []
